@@ -23,8 +23,8 @@ EXPLANATION = (
     "formats: _FORMATS[k] is the constant K / the isoformat lambda, to_<k>_string calls _to_string('<k>'), "
     "constants aliases; to_iso8601_string rewrites +00:00 only for the zone named UTC; (6) from_format "
     "forwards tz/locale and fills a missing tz; (7) the z token's pattern admits three-part IANA names and the values are "
-    "extracted from the anchored match (a localized name that is a prefix of another must not win). NOT decided: equality with strftime for every value, regex "
-    "backtracking on literal separators, zone abbreviations."
+    "extracted from the anchored match (a localized name that is a prefix of another must not win). NOT decided: equality with strftime for every value (the value rules below decide it on their tables), regex "
+    "backtracking on literal separators, zone abbreviations of tz-database zones."
     " Also: _check_parsed's defaulting lattice - an absent date field is reset to 1 exactly when a coarser field was parsed, otherwise taken from `now`; absent time fields are 0; the year is settled before day-of-year/day-of-week use it."
     " As built (value rules): RENDER.tabulated, ROUNDTRIP.tabulated, NOWFILL.tabulated and NOMATCH.tabulated evaluate Formatter.format and Formatter.parse - with the class-level token tables, Locale (locales/locale.py) and the locale literals they read - with the checker's interpreter in the formatter world of rules/fmtstub.py (DateTime values of the wall-clock world at a fixed offset, `re` of the standard library): every documented token and 9 token sequences with [escapes] on 22 DateTimes (240 more in the thorough tier) x 5 offsets against the documented rendering computed from the standard library; 24 full formats (every fraction width, ordinal day, 12-hour clock, two-digit years inside the POSIX window, weekday tokens beside a date), X / x, IANA names through z, and month / day names of all 27 locales formatted then parsed; time-only formats take the date of `now`; strings that do not match raise ValueError. Known finding (known_findings.json): the weekday token d is rendered with 0 = Sunday and parsed with 0 = Monday."
 )
